@@ -259,8 +259,9 @@ class Gen:
             return A.Str('u%dq' % self.lit_n)
         n = self.i(0, 6)
         alphabet = 'abXY z09,.;-'
-        if self.p.nonascii and self.chance(0.2):
-            alphabet += '\xe9\xdf\xb1#%'
+        if self.p.nonascii and self.chance(0.25):
+            # printable cp437 beyond ASCII (as decoded characters)
+            alphabet += bytes(range(0x80, 0x100)).decode('cp437') + '#%'
         s = ''.join(alphabet[self.i(0, len(alphabet) - 1)] for _ in range(n))
         return A.Str(s)
 
